@@ -5,6 +5,8 @@ import (
 	"strconv"
 
 	"google.golang.org/grpc"
+	"google.golang.org/grpc/codes"
+	"google.golang.org/grpc/status"
 
 	"github.com/smart-core-os/sc-api/go/traits"
 )
@@ -33,13 +35,20 @@ func (m *ModelServer) ListWasteRecords(ctx context.Context, req *traits.ListWast
 	pageToken := req.GetPageToken()
 	startIndex := m.model.GetWasteRecordCount()
 	if pageToken != "" {
-		_, err := strconv.Atoi(req.GetPageToken())
+		i, err := strconv.Atoi(req.GetPageToken())
 		if err != nil {
 			return nil, err
 		}
-		startIndex, _ = strconv.Atoi(pageToken)
+		if i <= 0 || i > startIndex {
+			// not a position this server hands out, using it would index outside the records
+			return nil, status.Errorf(codes.InvalidArgument, "bad page token %q", pageToken)
+		}
+		startIndex = i
 	}
 
+	if req.PageSize < 0 {
+		return nil, status.Errorf(codes.InvalidArgument, "page size %v is negative", req.PageSize)
+	}
 	count := req.PageSize
 	if count == 0 {
 		count = 50
